@@ -171,8 +171,108 @@ func compositeRef(site string, par float64) refFn {
 			}
 			return y, []float64{0, 1}, z, true
 		}
+	// the reductions over vectors / matrices: value, gradient and Hessian of the NAMED function (round 6: a loop
+	// that computes some other smooth function consistently passes every finite-difference check)
+	case "Vmean", "Mtrace":
+		return func(xs []float64) (float64, []float64, [][]float64, bool) {
+			n := len(xs)
+			v, g, h := 0.0, make([]float64, n), zeroMat(n)
+			for i, x := range xs {
+				v += x
+				g[i] = 1
+			}
+			if site == "Vmean" {
+				v /= float64(n)
+				for i := range g {
+					g[i] = 1 / float64(n)
+				}
+			}
+			return v, g, h, true
+		}
+	case "Vnorm", "Mnorm":
+		// Mnorm AS CODED: the sum of squares (finding F-MNORM-SQRT belongs to property C02)
+		return func(xs []float64) (float64, []float64, [][]float64, bool) {
+			n := len(xs)
+			q, g, h := 0.0, make([]float64, n), zeroMat(n)
+			for _, x := range xs {
+				q += x * x
+			}
+			if site == "Mnorm" {
+				for i, x := range xs {
+					g[i] = 2 * x
+					h[i][i] = 2
+				}
+				return q, g, h, true
+			}
+			v := math.Sqrt(q)
+			if !(v > 0) {
+				return 0, nil, nil, false
+			}
+			for i := range xs {
+				g[i] = xs[i] / v
+				for j := range xs {
+					h[i][j] = -xs[i] * xs[j] / (v * v * v)
+				}
+				h[i][i] += 1 / v
+			}
+			return v, g, h, true
+		}
+	case "VdotV":
+		return func(xs []float64) (float64, []float64, [][]float64, bool) {
+			n := len(xs)
+			m := n / 2
+			v, g, h := 0.0, make([]float64, n), zeroMat(n)
+			for i := 0; i < m; i++ {
+				v += xs[i] * xs[m+i]
+				g[i], g[m+i] = xs[m+i], xs[i]
+				h[i][m+i], h[m+i][i] = 1, 1
+			}
+			return v, g, h, true
+		}
+	case "SmoothMax", "LogSmoothMax":
+		// (sum x e^{a x}) / (sum e^{a x});  w_i = e^{a x_i} / D,  g_i = w_i (1 + a (x_i - v)),
+		// h_ij = delta_ij a w_i (2 + a (x_i - v)) - a w_i g_j - a w_j g_i
+		return func(xs []float64) (float64, []float64, [][]float64, bool) {
+			n := len(xs)
+			a := par
+			mx := math.Inf(-1)
+			for _, x := range xs {
+				if site == "LogSmoothMax" && !(x > 0) {
+					return 0, nil, nil, false
+				}
+				mx = math.Max(mx, a*x)
+			}
+			num, den := 0.0, 0.0
+			w := make([]float64, n)
+			for i, x := range xs {
+				w[i] = math.Exp(a*x - mx)
+				den += w[i]
+				num += x * w[i]
+			}
+			v := num / den
+			g, h := make([]float64, n), zeroMat(n)
+			for i := range xs {
+				w[i] /= den
+				g[i] = w[i] * (1 + a*(xs[i]-v))
+			}
+			for i := range xs {
+				for j := range xs {
+					h[i][j] = -a*w[i]*g[j] - a*w[j]*g[i]
+				}
+				h[i][i] += a * w[i] * (2 + a*(xs[i]-v))
+			}
+			return v, g, h, true
+		}
 	}
 	return nil
+}
+
+func zeroMat(n int) [][]float64 {
+	h := make([][]float64, n)
+	for i := range h {
+		h[i] = make([]float64, n)
+	}
+	return h
 }
 
 // check one (site, point): returns a failure description or "".
@@ -267,6 +367,22 @@ func checkPoint(site string, kind, order int, xs []float64, par float64, k int) 
 		if strings.HasPrefix(site, "LogSub") || strings.HasPrefix(site, "LogAdd") {
 			// a + log(1 -+ exp(b-a)) cancels: the rounding error is relative to the operands, not to the result
 			vscale = math.Abs(xs[0]) + math.Abs(xs[1])
+		}
+		switch site {
+		case "SmoothMax", "LogSmoothMax", "Vmean", "Mtrace", "VdotV", "Vnorm", "Mnorm":
+			// sums of signed terms cancel: the rounding error is relative to the terms, not to the result
+			for i, x := range xs {
+				if site == "VdotV" {
+					if i < n/2 {
+						vscale += math.Abs(x * xs[n/2+i])
+					}
+				} else {
+					vscale += math.Abs(x)
+				}
+			}
+			if vscale > scale {
+				scale = vscale
+			}
 		}
 		if !close(val, rv, eps, vscale) {
 			return fmt.Sprintf("value %v, closed form %v", val, rv)
